@@ -23,10 +23,11 @@ ENTRY = dict(
         "a failing attempt is retried after the back-off interval until one succeeds": "theorem (per attempt: back-off deadline = failure time + RECONNECT_TIMEOUT, no call before it, one call at it); that the timer fires exactly then is the modelled scheduler + correspondence (virtual timestamps of _open_connection calls)",
         "after re-establishment start-master sent again, devices see True, same device objects": "theorem (queued behind older requests, FIFO) + correspondence (frames on successive fake transports, id() of device objects)",
         "number of background tasks does not grow": "theorem + correspondence (asyncio.all_tasks() classified after every event)",
+        "loss while frame consumers are in the middle of a frame (they exit while disconnected and must be replaced)": "correspondence only, statement-level oracle: 'gated' histories with a slow subscriber on the protocol's new-device event; after every re-establishment exactly consumers_count consumers run and every received frame reaches its device object (the Lean machine treats frame handling as atomic)",
     },
     assumptions=COMMON_ASSUME + [
         "I/O faults are scripted on fake transports (StreamReader.feed_eof/set_exception, FakeWriter.drain/wait_closed raising or hanging, scripted _open_connection); real socket / serial behaviour is not exercised",
-        "module imports complete synchronously in the harness loop, so frame handling is atomic (import timing is C10's subject)",
+        "module imports complete synchronously in the harness loop; frame handling is atomic in the Lean machine (import timing is C10's subject); consumers caught mid-frame by a loss are exercised on the implementation only (gated histories, oracle = the statement)",
     ],
     timeout={"quick": 600, "thorough": 3000},
 )
